@@ -1,5 +1,5 @@
 """C02 -- compare-and-swap never loses an update."""
-import itertools, os, random
+import itertools, json, os, random
 from casefmt import write_cases, decode_tok, read_obs
 from common import *
 from coreops import *
@@ -64,6 +64,89 @@ def winners_oracle(ops, lines):
         elif op[0] in ("del", "set", "pdel", "import") and not r.startswith("err"):
             ep += 1
     return None
+
+def wire_cases(seed, n):
+    """the same rule through the client request path (process_api_call, protocol handlers) of a real server"""
+    import sessionops
+    out = []
+    for i in range(n):
+        r = random.Random(seed * 15485863 + i)
+        ns = r.randint(2, 3)
+        ops = [("open", s) for s in range(ns)]
+        tid = 0
+        ver = {}       # what a well-behaved client would remember per (session, key)
+        for _ in range(r.randint(8, 30)):
+            sx = r.randrange(ns); k = r.choice(["w/a", "w/b"]); tid += 1; x = r.random()
+            if x < 0.45: ops.append(("send", sx, {"cSet": {"transactionId": tid, "key": k, "value": r.randint(0, 2), "version": r.choice([0, 0, 1, 1, 2, 3, 4])}}))
+            elif x < 0.65: ops.append(("send", sx, {"cGet": {"transactionId": tid, "key": k}}))
+            elif x < 0.8: ops.append(("send", sx, {"set": {"transactionId": tid, "key": k, "value": r.randint(0, 2)}}))
+            elif x < 0.9: ops.append(("send", sx, {"delete": {"transactionId": tid, "key": k}}))
+            else: ops.append(("send", sx, {"get": {"transactionId": tid, "key": k}}))
+        out.append((f"w{i}", ops))
+    out.insert(0, ("w-version0-on-cas", [("open", 0), ("open", 1), ("send", 0, {"cSet": {"transactionId": 1, "key": "w/a", "value": 1, "version": 0}}), ("send", 0, {"cSet": {"transactionId": 2, "key": "w/a", "value": 2, "version": 1}}),
+                                         ("send", 1, {"cSet": {"transactionId": 3, "key": "w/a", "value": 9, "version": 0}}), ("send", 1, {"cGet": {"transactionId": 4, "key": "w/a"}})]))
+    return out
+
+def wire_oracle(ops, lines):
+    """the CAS rule on the wire: a cSet is acknowledged iff its version is the current one (0 on an absent or plain key),
+    it bumps the version by one, and cGet reports exactly the value and version the accepted writes imply"""
+    from sessionops import parse_out, decode_msg
+    st = {}     # key -> ("P", v) | ("C", v, ver)
+    for i, (op, line) in enumerate(zip(ops, lines)):
+        if op[0] != "send": continue
+        m = op[2]; kind = next(iter(m)); b = m[kind]; t = b["transactionId"]
+        got = [decode_msg(tok) for sx, tok in parse_out(line) if sx == op[1]]
+        ans = None
+        for g_ in got:
+            if isinstance(g_, str) and g_.startswith(f"err:{t}:"): ans = ("err", int(g_.split(":")[2]))
+            elif isinstance(g_, dict) and next(iter(g_.values())).get("transactionId") == t: ans = (next(iter(g_)), next(iter(g_.values())))
+        if ans is None: return (i, f"no answer to {json.dumps(m)}: {got}")
+        cur = st.get(b.get("key"))
+        if kind == "cSet":
+            allowed = (b["version"] == 0) if (cur is None or cur[0] == "P") else (cur[2] == b["version"])
+            if ans[0] == "ack":
+                if not allowed: return (i, f"cSet with version {b['version']} was acknowledged although the key holds {cur}: an update is lost")
+                st[b["key"]] = ("C", b["value"], b["version"] + 1)
+            elif allowed: return (i, f"cSet with the current version {b['version']} was refused ({ans}) although the key holds {cur}")
+        elif kind == "set":
+            if ans[0] == "ack":
+                if cur is not None and cur[0] == "C": return (i, f"plain set overwrote the CAS-protected value {cur}")
+                st[b["key"]] = ("P", b["value"])
+        elif kind == "delete":
+            if ans[0] == "state": st.pop(b["key"], None)
+        elif kind == "cGet":
+            if cur is None:
+                if ans[0] != "err": return (i, f"cGet of an absent key answered {ans}")
+            else:
+                want = (cur[1], cur[2] if cur[0] == "C" else 0)
+                if ans[0] != "cState" or (ans[1].get("value"), ans[1].get("version")) != want: return (i, f"cGet answered {ans}, the accepted writes imply value/version {want}")
+    return None
+
+def run_wire(v, tier, seed, work):
+    import sessionops
+    n = 40 if tier == "quick" else 1500
+    cases = wire_cases(seed, n)
+    cpath = os.path.join(work, "wire.txt")
+    write_cases(cpath, [(nm, ["cfg auth=0"] + [sessionops.R(o) for o in ops]) for nm, ops in cases])
+    impl, model = run_engine("session", "session_driver", cpath, work, tag="-wire")
+    A, B = read_obs(impl), read_obs(model)
+    A = {nm: sessionops.align_closed(A[nm], B.get(nm, [])) for nm in A}
+    diffs = [(nm, i) for nm, _ in cases for i, (x, y) in enumerate(zip(A[nm], B.get(nm, []))) if sessionops.canon_session_line(x) != sessionops.canon_session_line(y)]
+    acks = 0
+    for nm, ops in cases:
+        lines = A[nm][1:]
+        acks += sum(l.count("61636b") for l in lines)
+        bad = wire_oracle(ops, lines)
+        if bad:
+            step, msg = bad
+            v.violation({"what": msg, "case": nm, "engine": "session", "driver": "session_driver", "ops": ["cfg auth=0"] + [sessionops.R(o) for o in ops[:step + 1]], "ops_readable": [str(o) for o in ops[:step + 1]]})
+            return
+    if diffs and not v.violations:
+        nm, i = diffs[0]; ops = dict(cases)[nm]
+        v.violation({"what": "session model and server disagree on a CAS history sent over the wire; the CAS rule holds on every observed trace", "case": nm, "engine": "session", "driver": "session_driver",
+                     "ops": ["cfg auth=0"] + [sessionops.R(o) for o in ops[:i]], "impl": A[nm][i], "model": B[nm][i],
+                     "broken_obligation": "correspondence session/C02 (Model/Session.v handle MCSet -> Core.do_insert force=false; lib.rs process_api_call)"}, no_input=True)
+    v.cov["wire"] = {"cases": len(cases), "acks": acks, "disagreements": len(diffs), "rule": "random cSet/cGet/set/delete histories of 2-3 sessions on two shared keys through a real in-process server (client request path: unix socket -> protocol handlers -> process_api_call -> core); every line vs the session model; independent wire-level CAS oracle"}
 
 def run(v, tier, seed):
     work = os.path.join(WORK, ID); os.makedirs(work, exist_ok=True)
@@ -132,6 +215,8 @@ def run(v, tier, seed):
         v.violation({"what": "model and implementation disagree; the CAS rule holds on every observed trace", "case": name,
                      "ops": [render(o) for o in ops[:step + 1]], "step": step, "impl": decode_tok(x), "model": decode_tok(y),
                      "broken_obligation": "correspondence core/C02 (Model/Core.v decide, do_insert)"}, no_input=True)
+    if not v.violations:
+        run_wire(v, tier, seed, work)
     v.cov.update({"evaluations": ncases, "distinct_nontrivial": len(nontrivial), "steps": nsteps, "disagreements": len(diffs),
                   "rule": f"corpus (rules, u64 boundary) + every interleaving at request granularity of cget->cset client programs for shapes (clients, rounds) {shapes} on one and two shared keys, with plain-set/delete disturbers ({n_int} interleavings) + {nrand} random sequences with stale/future/boundary versions; non-trivial = at least one accepted and one rejected cset",
                   "samples": samples, "accepted_csets": acc, "rejected_csets": rej, "interleavings": n_int,
